@@ -35,8 +35,9 @@ TOLERANCES = {"permutation-default": 1e-6,    # [4.3e-9] of the peak field
               "permutation-tight": 1e-6,      # [1.9e-8]
               "rotation-default": 1e-5,       # [3.6e-8]
               "rotation-tight": 1e-5,         # [7.1e-8]
-              "one-sphere-vs-mie": 6e-3,      # [2.0e-4]
-              "weak-coupling": 0.3,           # [1.6e-2]
+              # default single-sphere truncation (qeps1 = 1e-5 of Q_ext)
+              "one-sphere-vs-mie": 1e-3,      # [1.1e-4; 3e-4 at x = 26]
+              "weak-coupling": "0.25 x^3 / (k d)",   # [0.05 of it]
               "displaced-sphere": 1e-5,       # [2.2e-7]
               "auto-vs-explicit": "bit-identical"}
 TIMEOUT = 900
@@ -120,12 +121,19 @@ _USE_SIZES = [False]
 
 
 # two small spheres far apart, observed on a distant plane: multiple
-# scattering is negligible, so the cluster solution must approach the
-# superposition of the two single-sphere solutions (an anchor that fixes the
-# orientation of the cluster along the optical axis, which the symmetry
-# checks cannot see).  Floor on the unchanged tree 1.6e-2.
-WEAK = [(0.1, 1.45, (1.5, 0.4, 2.0)), (0.1, 1.45, (6.0, 2.0, 8.0)),
-        (0.12, 1.59, (-2.0, 1.0, -3.0))]
+# scattering is weak, so the cluster solution (with its radial component)
+# must approach the superposition of the two single-sphere solutions (an
+# anchor that fixes the orientation of the cluster along the optical axis,
+# which the symmetry checks cannot see).  The field sphere 1 scatters onto
+# sphere 2 is |S| / (k d) of the incident one with |S| < 0.25 x^3 for these
+# indices, which bounds the relative difference; it is measured at 3-5 % of
+# that bound, and scales with x^3 as it should (r = 0.1 -> 0.025).
+WEAK = [(0.1, 1.45, (1.5, 0.4, 2.0)), (0.1, 1.45, (3.0, 0.8, 4.0)),
+        (0.12, 1.59, (-2.0, 1.0, -3.0)), (0.025, 1.45, (1.5, 0.4, 2.0)),
+        (0.025, 1.45, (5.0, 0.0, 0.0)), (0.05, 1.59, (0.0, 0.0, 4.0)),
+        # beyond the 70 cluster-centred orders the solver is compiled for
+        # (k * extent / 2 > ~53): refused, or within the same bound
+        (0.025, 1.45, (6.0, 2.0, 8.0)), (0.025, 1.45, (12.0, 0.0, 0.0))]
 
 
 def _run_weak(case, ck):
@@ -140,14 +148,26 @@ def _run_weak(case, ck):
         warnings.simplefilter("ignore")
         s = Spheres([Sphere(n=n, r=r, center=c1), Sphere(n=n, r=r,
                                                          center=c2)])
-    a = _field(det, s, Multisphere(**TIGHT))
-    b = _field(det, s, Mie(False, True))
+    try:
+        a = _field(det, s, Multisphere(compute_escat_radial=True, **TIGHT))
+    except Exception as e:
+        if (case["i"] >= 6 and type(e).__name__ == "InvalidScatterer" and
+                "compiled expansion order" in str(e)):
+            ck.metric("cluster-refused-beyond-compiled-order", 1)
+            ck.trans += 1
+            return "refused"
+        raise
+    b = _field(det, s, Mie(True, True))
     ck.trans += 2
-    e = float(np.abs(a - b)[:, :2].max() / np.abs(b).max())
+    e = float(np.abs(a - b).max() / np.abs(b).max())
+    x = H.K * r
+    bound = 0.25 * x ** 3 / (H.K * float(np.linalg.norm(sep)))
+    ck.metric("weak-coupling/bound", e / bound)
     ck.metric("weak-coupling", e)
-    ck.true("weak-coupling-limit", e <= 0.3, "two small spheres %r apart: "
+    ck.true("weak-coupling-limit", e <= bound, "two small spheres %r apart: "
             "the cluster solution differs from the superposition of the "
-            "single-sphere solutions by %.2e on a distant plane" % (sep, e))
+            "single-sphere solutions by %.2e on a distant plane (bound from "
+            "the strength of the coupling: %.2e)" % (sep, e, bound))
     return digest(fp_values(a))
 
 
@@ -319,7 +339,14 @@ def _run_rot(case, ck):
 
 
 # --------------------------------------------------------------------------
-def _two(sep_over_r, r=1.0, n=1.5, layered=False, third=None):
+# radius of the spheres in the rule cases: a power of two (so that
+# sep * r is exact and the 30-radius boundary is hit to the last bit) and
+# small enough that a cluster 30 radii across stays within the expansion
+# order the multi-sphere solver is compiled for (k * extent / 2 < ~50)
+RS = 0.125
+
+
+def _two(sep_over_r, r=RS, n=1.5, layered=False, third=None):
     """builder spec for two (or three) spheres of radius r whose centres
     are sep_over_r * r apart along x"""
     return ("two", sep_over_r, r, n, layered, third)
@@ -396,15 +423,16 @@ def _build(spec):
                                   center=(-third * r, 0.0, 50.0)))
             return Spheres(mem)
         if kind == "oblique":
-            d = spec[1]
-            return Spheres([Sphere(n=1.5, r=1.0, center=(0.0, 0.0, 50.0)),
-                            Sphere(n=1.5, r=1.0,
+            d = [RS * c for c in spec[1]]
+            return Spheres([Sphere(n=1.5, r=RS, center=(0.0, 0.0, 50.0)),
+                            Sphere(n=1.5, r=RS,
                                    center=(d[0], d[1], 50.0 + d[2]))])
         if kind == "unequal":
-            sep = spec[1]
-            # 30-radius rule uses the LARGEST radius (here 1.0)
-            return Spheres([Sphere(n=1.5, r=1.0, center=(0, 0, 50.0)),
-                            Sphere(n=1.5, r=0.2, center=(sep, 0, 50.0))])
+            sep = RS * spec[1]
+            # 30-radius rule uses the LARGEST radius (here RS)
+            return Spheres([Sphere(n=1.5, r=RS, center=(0, 0, 50.0)),
+                            Sphere(n=1.5, r=0.2 * RS,
+                                   center=(sep, 0, 50.0))])
         if kind == "nocentre":
             return Spheres([Sphere(n=1.5, r=0.5, center=(0, 0, 5)),
                             Sphere(n=1.5, r=0.5)])
@@ -492,14 +520,30 @@ def _run_rule(case, ck):
     # naming the theory explicitly gives the identical result
     det = H.det_grid(3, 0.1)
     if got == expect:
-        with warnings.catch_warnings():
-            warnings.simplefilter("ignore")
-            a = calc_holo(det, scat, H.NMED, H.WL, (1, 0),
-                          theory="auto").values
-            b = calc_holo(det, scat, H.NMED, H.WL, (1, 0),
-                          theory=getattr(T, expect)()).values
-            c = calc_holo(det, scat, H.NMED, H.WL, (1, 0)).values
+        def outcome(**kw):
+            try:
+                with warnings.catch_warnings():
+                    warnings.simplefilter("ignore")
+                    return calc_holo(det, scat, H.NMED, H.WL, (1, 0),
+                                     **kw).values
+            except Exception as e:
+                return "raise:%s:%s" % (type(e).__name__, e)
+        a = outcome(theory="auto")
+        b = outcome(theory=getattr(T, expect)())
+        c = outcome()
         ck.trans += 3
+        if isinstance(b, str):
+            # the named theory refuses this scatterer: so must the default
+            ck.true("auto-vs-explicit", a == b and c == b, "%s: explicit %s "
+                    "gives %s, theory='auto' %s, default %s" %
+                    (name, expect, b, str(a)[:80], str(c)[:80]))
+            ck.metric("rule-case-refused-by-named-theory", 1)
+            return digest(got, b)
+        if isinstance(a, str) or isinstance(c, str):
+            ck.true("auto-vs-explicit", False, "%s: explicit %s computes, "
+                    "theory='auto' gives %s, default %s" %
+                    (name, expect, str(a)[:80], str(c)[:80]))
+            return digest(got, str(a)[:40])
         ck.same_bits("auto-vs-explicit", a, b, "%s: theory='auto' vs "
                      "explicit %s" % (name, expect))
         ck.same_bits("auto-vs-explicit", c, b, "%s: default theory argument "
